@@ -436,6 +436,12 @@ def add_mutations(rng, c, profile):
                     if scheme != "ipa" and not_enforced:
                         # presented under a bound the keys were not trimmed for
                         put(t, "comm_mut", [k, "relabel_bound", rng.choice(not_enforced)], "reject")
+                        # ... in particular the unenforced bounds next to the polynomial's own bound (a verifier key that
+                        # rounds a bound to a neighbouring enforced one)
+                        near = [b for b in not_enforced if abs(b - int(bk)) <= 2 or
+                                not any(min(b, int(bk)) < e < max(b, int(bk)) for e in bl_all)]
+                        for b in rng.sample(near, min(2, len(near))):
+                            put(t, "comm_mut", [k, "relabel_bound", b], "reject")
                     coeffs = [int(x) for x in c.fields["poly.%d" % k]]
                     v = sum(co * pow(z, e, p) for e, co in enumerate(coeffs)) % p
                     hid = c.fields["hiding.%d" % k][0] != "none"
